@@ -19,8 +19,13 @@
     * `transform_spec` is for additive maps `T` of the carrier; the Decode/Encode flags of the real
       transform (NTT over Z_t, big-float FFT) are exercised by the probes only.
 
-  Findings proved on the model: `pcks`/refresh aggregation defects are API-level and exhibited by
-  probes (`level_mismatch`, `refresh_agg_fresh_receiver`, `transform_applies_f … fresh_as_allocated`).
+  Defects found through this property and repaired in /repo (fixes/C16-*.diff; API-level, exhibited by
+  probes, the model being unaffected except for the scale used by the BGV transform):
+    * PublicKeySwitchProtocol.AggregateShares compared share1 with itself     (probe level_mismatch)
+    * refresh AggregateShares (mpbgv, mpckks) did not set shareOut.MetaData    (probe refresh_agg_fresh_receiver)
+    * mpbgv Transform used the output's scale and did not set the output MetaData
+                                                    (probes refresh_roundtrip / transform_applies_f, fresh output)
+    * mpckks masked transform failed for prec ≤ 53 with Decode/Encode         (probe transform_prec)
 -/
 import Lattigo.Proofs.MPSwitch
 
